@@ -3,6 +3,6 @@ Require Extraction.
 Require Import ExtrOcamlBasic.
 From Verif Require Import Lib.Base Gen.InterpFields Model.Reuse.
 Extraction "model.ml"
-  nil_tested model_fields obs_fields obs_fields_partial run_mutable
+  nil_tested model_fields obs_fields run_mutable
   m_newInterp m_resetCore m_resetVars m_resetRand m_prologue m_setExecuteConfig m_prepare
   set_vars_exec predict_diff diff_on val_eqb.
